@@ -243,6 +243,9 @@ def run(tier):
     for x, rt in zip(qk, qres["roundtrip"][1:]):
         tr = rt.get("t1")
         if rt["status"] == "not-accepted" or not tr:
+            if x["valid"]:
+                c.finding("c02:query-rejected:%s" % x["qq"]["form"], "the query `%s` is a valid instance of the form %s (Queries!Valid) and no tree is handed to clients: %s" % (
+                    rt["text"], x["qq"]["form"], json.dumps(rt.get("first") or rt.get("what"))[:200]), {"kind": "query", "text": rt["text"], "form": x["qq"]})
             continue
         n_q += 1
         kids = [k.get("k") if isinstance(k, dict) else None for k in (tr.get("c") or [])]
